@@ -106,6 +106,28 @@ theorem doc_sample_dump : Brine.dump docSample = .ok docSampleBytes := by
   rw [enc_eq_specEnc docSample (by decide +kernel) (by decide +kernel)]
   exact doc_sample_published
 
+/-! ### known finding: text with a lone surrogate is transmitted in a form the published format does not define -/
+
+/-- at full strength: whatever `dump` emits is what the published encoder defines for that value -/
+def C19_emits_only_published : Prop :=
+  ∀ (v : Val) (e : Bytes), Renderable v = true → Brine.dump v = .ok e → specEnc v = .ok e
+
+/-- **false of the tree under check** (since `_dump_str` passes `surrogatepass`, C04's repair so that every dumpable
+text is encoded): `"\ud800"` is transmitted as `08 0c ED A0 80`, which the published format — text is UTF-8 — does
+not define; a conforming decoder rejects it.  Known finding `C19:lone-surrogate-text-uses-surrogatepass`. -/
+theorem C19_emits_only_published_counterexample : ¬ C19_emits_only_published := by
+  intro h
+  have h1 : Brine.dump (.str [0xD800]) = .ok [0x08, 0x0c, 0xED, 0xA0, 0x80] := by decide +kernel
+  have h2 := h (.str [0xD800]) _ (by decide) h1
+  have h3 : specEnc (.str [0xD800]) = .error .unicodeEncodeError := by decide +kernel
+  rw [h3] at h2
+  cases h2
+
+/-- what does hold: on every value whose text consists of Unicode scalar values -/
+theorem C19_emits_only_published_partial (v : Val) (e : Bytes) (hr : Renderable v = true)
+    (hs : ScalarText v = true) (h : Brine.dump v = .ok e) : specEnc v = .ok e := by
+  rw [← enc_eq_specEnc v hr hs]; exact h
+
 /-! ### (5) the frame -/
 
 /-- **frame layout**: what `Channel.send` writes for `data` is `be32 len ++ [flag] ++ payload ++ [0x0a]`
